@@ -22,6 +22,7 @@ PREFIXES = {
     "PfxAVal": "a;a=",
     "PfxQ": "<>;q=",
     "PfxQBig": "<>;q=" + U64P,
+    "PfxQLong": "<>;q=0.11",
     "PfxExp": "<>;expires=",
     "PfxExpN": "<>;Expires",
     "PfxExp32": "<>;expires=" + U32P,
@@ -52,6 +53,7 @@ ATOMS = {
     "AtomsQ": ["0", "1", ".", "a", ";"],
     "AtomsQ2": ["0", "1", "9", ".", EOHX],
     "AtomsQBig": ["5", "6", ".", "a", ";"],
+    "AtomsQLong": ["1", "0", "a", ".", ";", EOHX],
     # expires values after "<>;expires="...
     "AtomsExp": ["0", "9", "a", ";", " ", ",", EOHX],
     "AtomsExpBig": ["4", "5", "6", "a", ";", EOHX],
@@ -77,27 +79,28 @@ CFGS = [
     ("pparams2", "nameaddr", "AtomsParams2", "CfgsNA8",   6, "PfxAS"),
     ("quotev",   "nameaddr", "AtomsQuoteV",  "CfgsNA8",   6, "PfxABVal"),
     ("pquotev",  "nameaddr", "AtomsQuoteV",  "CfgsNA8",   6, "PfxAVal"),
-    ("known",    "nameaddr", "AtomsKnown",   "CfgsNA12",  8, "PfxABS"),
-    ("knownw",   "nameaddr", "AtomsKnownW",  "CfgsNA12",  8, "PfxABS"),
-    ("pknown",   "nameaddr", "AtomsKnown",   "CfgsNA1",   8, "PfxAS"),
-    ("pknownw",  "nameaddr", "AtomsKnownW",  "CfgsNA8",   8, "PfxAS"),
+    ("known",    "nameaddr", "AtomsKnown",   "CfgsNA12",  7, "PfxABS"),
+    ("knownw",   "nameaddr", "AtomsKnownW",  "CfgsNA12",  7, "PfxABS"),
+    ("pknown",   "nameaddr", "AtomsKnown",   "CfgsNA1",   7, "PfxAS"),
+    ("pknownw",  "nameaddr", "AtomsKnownW",  "CfgsNA8",   7, "PfxAS"),
     ("knowne",   "nameaddr", "AtomsKnownE",  "CfgsNA8",   6, "PfxExpN"),
-    ("q",        "nameaddr", "AtomsQ",       "CfgsNA8",   7, "PfxQ"),
-    ("q2",       "nameaddr", "AtomsQ2",      "CfgsNA8",   8, "PfxQ"),
+    ("q",        "nameaddr", "AtomsQ",       "CfgsNA8",   6, "PfxQ"),
+    ("qlong",    "nameaddr", "AtomsQLong",   "CfgsNA8",   5, "PfxQLong"),
+    ("q2",       "nameaddr", "AtomsQ2",      "CfgsNA8",   7, "PfxQ"),
     ("qbig",     "nameaddr", "AtomsQBig",    "CfgsNA8",   5, "PfxQBig"),
     ("exp",      "nameaddr", "AtomsExp",     "CfgsNA8",   6, "PfxExp"),
-    ("exp32",    "nameaddr", "AtomsExpBig",  "CfgsNA8",   6, "PfxExp32"),
-    ("exp64",    "nameaddr", "AtomsExpBig",  "CfgsNA8",   6, "PfxExp64"),
-    ("pexp64",   "nameaddr", "AtomsExpBig",  "CfgsNA1",   6, "PfxPExp64"),
+    ("exp32",    "nameaddr", "AtomsExpBig",  "CfgsNA8",   5, "PfxExp32"),
+    ("exp64",    "nameaddr", "AtomsExpBig",  "CfgsNA8",   5, "PfxExp64"),
+    ("pexp64",   "nameaddr", "AtomsExpBig",  "CfgsNA1",   5, "PfxPExp64"),
     ("onepai",   "onepai",   "AtomsList",    "CfgsPAI1",  5, "PfxNone"),
     ("contacts",  "contacts", "AtomsList",   "CfgsCont",  4, "PfxNone"),
     ("contactsn", "contacts", "AtomsListN",  "CfgsCont",  8, "PfxNone"),
     ("contactss", "contacts", "AtomsListS",  "CfgsCont",  7, "PfxNone"),
-    ("contactse", "contacts", "AtomsListE",  "CfgsCont", 30, "PfxNone"),
-    ("contactsq", "contacts", "AtomsListQ",  "CfgsCont0", 7, "PfxNone"),
+    ("contactse", "contacts", "AtomsListE",  "CfgsCont", 28, "PfxNone"),
+    ("contactsq", "contacts", "AtomsListQ",  "CfgsCont0", 6, "PfxNone"),
     ("pais",     "pais",     "AtomsList",    "CfgsPAIs",  5, "PfxNone"),
     ("paisn",    "pais",     "AtomsListN",   "CfgsPAIs",  9, "PfxNone"),
-    ("paiss",    "pais",     "AtomsListS",   "CfgsPAIs",  8, "PfxNone"),
+    ("paiss",    "pais",     "AtomsListS",   "CfgsPAIs",  7, "PfxNone"),
 ]
 # per cfg overrides: invariants removed because the CODE violates them (see the comment written into the cfg)
 OVERRIDE = {}
